@@ -12,7 +12,9 @@ Definition name := nat.
 Definition cid := nat.
 
 Inductive backend := BFile | BKeep | BRedis | BRedisOld | BDict.
-Inductive lockop := OGet | ORelease | OFail | OIsLocked | OIsFailed.
+(* OTick d: d seconds pass (the scheduler's "time passes" step, issued by a clock client between any
+   two primitives of the others); the name it is filed under is irrelevant *)
+Inductive lockop := OGet | ORelease | OFail | OIsLocked | OIsFailed | OTick (d : Z).
 
 (* constants of the source (Gen/LockConsts.v instantiates them) and the abstract clock *)
 Record params := mkParams {
@@ -32,6 +34,9 @@ Inductive prim :=
 | RGetSet (n : name) (v : Z) | RSet (n : name) (v : Z) | RSetNx (n : name) (v : Z)
 | RGet (n : name) | RDel (n : name)
 | DOp (o : lockop) (n : name)     (* one whole dict_lock method, atomic *)
+| PTick (d : Z)                   (* d seconds pass: the identity on every store (no lock of the file, redis and dict
+                                     backends carries an expiry; the keep-alive backend is modelled on a frozen clock,
+                                     its behaviour in time is Model/Keepalive.v) *)
 | PUnknown (k : nat).             (* any other store access: never issued by the model *)
 
 Inductive resp := RB (b : bool) | RV (v : option Z) | RU | RE.
@@ -55,6 +60,7 @@ Definition dict_op (P : params) (st : lkstate) (o : lockop) (n : name) : lkstate
       match st1 n with Some v => (st1, RB (Z.eqb v (p_dF P))) | None => (st1, RE) end
   | OIsLocked => (st, RB (Z.eqb cur (p_dL P) || Z.eqb cur (p_dF P)))
   | OIsFailed => (st, RB (Z.eqb cur (p_dF P)))
+  | OTick _ => (st, RU)
   end.
 
 Definition runp (P : params) (st : lkstate) (p : prim) : lkstate * resp :=
@@ -70,6 +76,7 @@ Definition runp (P : params) (st : lkstate) (p : prim) : lkstate * resp :=
   | RGet n => (st, RV (st n))
   | RDel n => match st n with Some _ => (upd st n None, RB true) | None => (st, RB false) end
   | DOp o n => dict_op P st o n
+  | PTick _ => (st, RU)
   | PUnknown _ => (st, RE)
   end.
 
@@ -94,6 +101,7 @@ Definition op_prim (P : params) (b : backend) (o : lockop) (n : name) (pc : nat)
       | OFail, _ => PUtime n (p_failed P)
       | OIsLocked, _ => PExists n
       | OIsFailed, O => PExists n | OIsFailed, S _ => PStat n
+      | OTick d, _ => PTick d
       end
   | BRedis =>
       match o, pc with
@@ -102,6 +110,7 @@ Definition op_prim (P : params) (b : backend) (o : lockop) (n : name) (pc : nat)
       | OFail, O => RGet n | OFail, S _ => RSet n (p_F P)
       | OIsLocked, _ => RGet n
       | OIsFailed, _ => RGet n
+      | OTick d, _ => PTick d
       end
   | BRedisOld =>
       match o, pc with
@@ -110,8 +119,9 @@ Definition op_prim (P : params) (b : backend) (o : lockop) (n : name) (pc : nat)
       | OFail, O => RGet n | OFail, S _ => RSet n (p_F P)
       | OIsLocked, _ => RGet n
       | OIsFailed, _ => RGet n
+      | OTick d, _ => PTick d
       end
-  | BDict => DOp o n
+  | BDict => match o with OTick d => PTick d | _ => DOp o n end
   end.
 
 Definition redis_fail_next (P : params) (pc : nat) (r : resp) : outcome :=
@@ -137,6 +147,7 @@ Definition op_next (P : params) (b : backend) (o : lockop) (pc : nat) (r : resp)
       | OIsFailed, O, RB false => Done (OB false)
       | OIsFailed, S _, RV (Some mt) => Done (OB (isfailedv P b mt))
       | OIsFailed, S _, RV None => Done (OB false)   (* OSError: pass *)
+      | OTick _, _, RU => Done OU
       | _, _, _ => Done OE
       end
   | BRedis =>
@@ -148,6 +159,7 @@ Definition op_next (P : params) (b : backend) (o : lockop) (pc : nat) (r : resp)
       | OIsLocked, RV None => Done (OB false)
       | OIsFailed, RV (Some v) => Done (OB (Z.eqb v (p_F P)))
       | OIsFailed, RV None => Done (OB false)
+      | OTick _, RU => Done OU
       | _, _ => Done OE
       end
   | BRedisOld =>
@@ -161,6 +173,7 @@ Definition op_next (P : params) (b : backend) (o : lockop) (pc : nat) (r : resp)
       | OIsLocked, _, RV None => Done (OB false)
       | OIsFailed, _, RV (Some v) => Done (OB (Z.eqb v (p_F P)))
       | OIsFailed, _, RV None => Done (OB false)
+      | OTick _, _, RU => Done OU
       | _, _, _ => Done OE
       end
   | BDict =>
@@ -255,12 +268,14 @@ Definition spec_op (o : lockop) (c : cid) (g : gst) : gst * ores :=
   | OFail => match g with GFree => (GFree, OB false) | _ => (GFailed, OB true) end
   | OIsLocked => (g, OB (match g with GFree => false | _ => true end))
   | OIsFailed => (g, OB (match g with GFailed => true | _ => false end))
+  | OTick _ => (g, OU)             (* time passes: the atomic lock does not change *)
   end.
 
 (* ------------------------------------------------------------------ comparison (for the tie) *)
 Definition lockop_eqb (a b : lockop) : bool :=
   match a, b with
   | OGet, OGet | ORelease, ORelease | OFail, OFail | OIsLocked, OIsLocked | OIsFailed, OIsFailed => true
+  | OTick x, OTick y => Z.eqb x y
   | _, _ => false
   end.
 
@@ -271,6 +286,7 @@ Definition prim_eqb (a b : prim) : bool :=
   | PUtime n v, PUtime m w | RGetSet n v, RGetSet m w | RSet n v, RSet m w | RSetNx n v, RSetNx m w =>
       Nat.eqb n m && Z.eqb v w
   | DOp o n, DOp q m => lockop_eqb o q && Nat.eqb n m
+  | PTick x, PTick y => Z.eqb x y
   | _, _ => false
   end.
 
